@@ -335,8 +335,10 @@ def apply_units(dest, units, only_harnesses=None):
                     impl, _, name = before[1].rpartition("::")
                     a, _o, _b = verus_run.find_fn(text, name, impl or None)
                 else:
-                    a, _o, _b = verus_run.find_struct(text, before[1])
-                    a = text.rfind("\n", 0, a) + 1
+                    ms = [m for m in re.finditer(r"^[ \t]*(?:pub(?:\([a-z]+\))?\s+)?struct\s+" + re.escape(before[1]) + r"\b", text, re.M)]
+                    if len(ms) != 1:
+                        raise Undecided(f"lost anchor: {len(ms)} definitions of struct {before[1]} in {f}")
+                    a = ms[0].start()
                 tl = text.split("\n")
                 k = text.count("\n", 0, a)
                 indent = re.match(r"\s*", tl[k]).group(0)
